@@ -1,5 +1,269 @@
-// stub: check for C12 not built yet
+use c12::*;
+use collector::Signal;
+use std::sync::atomic::{AtomicBool, AtomicU32, Ordering};
+use vcore::proptest::prelude::*;
+use vcore::{Cx, Level, Res, Session};
+
+const RULE: &str = "a case is a scenario interpreted against a real emit_otlp emitter and the scripted local collector: transport {HTTP/JSON, HTTP/protobuf, gRPC} x gzip on/off x any non-empty subset of the three signals; per signal one small 'plug' event whose request the collector holds open, then 2-9 events with 300-700 KiB (sometimes tiny or >1 MiB) string payloads that accumulate into ONE batch which emit splits into 1..5+ size-limited requests; the collector answers the n-th request of that batch by script {ack, 4xx/5xx, non-zero grpc-status in trailers or in a Trailers-Only response, bare HTTP error on gRPC, close before reading, read then close, stall past the 30 s request timeout, ack then close}; optionally one signal's endpoint is down (refused / reset / 503) for the whole case; the application ends with blocking_flush or by dropping the emitter (while batches are queued, or while a failed request waits for its back-off). Families: split (no fault), fault (1-2 scripted failures), stall, outage, drop. Non-trivial = some signal's batch needed >= 2 requests, or >= 1 request failed.";
+
+/// Bounds shrinking cost: every evaluation of a scenario costs 0.1-30 s of real time.
+struct Guard {
+    failed: AtomicBool,
+    shrink_runs: AtomicU32,
+}
+
+impl Guard {
+    fn new() -> Guard {
+        Guard { failed: AtomicBool::new(false), shrink_runs: AtomicU32::new(0) }
+    }
+
+    fn check(&self, s: &Session, sc: &Scenario, cx: &mut Cx) -> Res {
+        if cx.replaying && !s.is_replay() && self.failed.load(Ordering::SeqCst) {
+            // proptest is shrinking a failure of this generator: allow a bounded number of further
+            // evaluations (none for stall scenarios), then report "passes" so the current candidate stays
+            let n = self.shrink_runs.fetch_add(1, Ordering::SeqCst);
+            if n >= 24 || sc.has_stall() {
+                return Ok(());
+            }
+        }
+        let r = res(check(sc, cx), |p| s.inconclusive(format!("harness: {p}")));
+        if r.is_err() && !cx.replaying {
+            self.failed.store(true, Ordering::SeqCst);
+        }
+        r
+    }
+}
+
+// ---------------------------------------------------------------------------------------------
+// strategies
+
+fn size() -> impl Strategy<Value = u16> {
+    prop_oneof![
+        10 => 300u16..=700,
+        1 => 1u16..=64,
+        1 => Just(1024u16),
+        1 => 1025u16..=1400,
+    ]
+}
+
+fn subset(min: usize) -> impl Strategy<Value = [bool; 3]> {
+    let all: Vec<[bool; 3]> = (1u8..8)
+        .map(|m| [m & 1 != 0, m & 2 != 0, m & 4 != 0])
+        .filter(|s| s.iter().filter(|b| **b).count() >= min)
+        .collect();
+    prop::sample::select(all)
+}
+
+fn fault_kind(wire: Wire, stall: bool) -> BoxedStrategy<Fault> {
+    if stall {
+        return Just(Fault::Stall).boxed();
+    }
+    match wire {
+        Wire::HttpJson | Wire::HttpProto => prop_oneof![
+            3 => prop::sample::select(vec![400u16, 404, 429, 500, 502, 503]).prop_map(Fault::Status),
+            2 => Just(Fault::CloseBeforeRead),
+            2 => Just(Fault::ReadThenClose),
+            1 => Just(Fault::AckThenClose),
+        ]
+        .boxed(),
+        Wire::Grpc => prop_oneof![
+            3 => (1u8..=16).prop_map(Fault::GrpcStatus),
+            2 => (1u8..=16).prop_map(Fault::GrpcTrailersOnly),
+            1 => prop::sample::select(vec![429u16, 502, 503]).prop_map(Fault::Status),
+            2 => Just(Fault::CloseBeforeRead),
+            2 => Just(Fault::ReadThenClose),
+            1 => Just(Fault::AckThenClose),
+        ]
+        .boxed(),
+    }
+}
+
+#[derive(Clone, Copy, PartialEq, Debug)]
+enum Family {
+    Split,
+    Fault,
+    Stall,
+    Outage,
+    Drop,
+}
+
+fn stream(wire: Wire, family: Family, thorough: bool) -> BoxedStrategy<Stream> {
+    let events = match family {
+        Family::Split => 2usize..=9,
+        Family::Fault | Family::Stall => 4usize..=8,
+        Family::Outage => 2usize..=6,
+        Family::Drop => 1usize..=5,
+    };
+    let sizes = prop::collection::vec(size(), events);
+    match family {
+        Family::Split => sizes.prop_map(|sizes_kib| Stream { sizes_kib, faults: vec![] }).boxed(),
+        Family::Fault | Family::Stall => {
+            let stall = family == Family::Stall;
+            let max_pos = if thorough { 3u8 } else { 1u8 };
+            let first = (0..=max_pos, fault_kind(wire, stall)).prop_map(|(pos, fault)| FaultAt { pos, fault });
+            let second = if thorough && !stall {
+                prop_oneof![2 => Just(None), 1 => (0..=max_pos, fault_kind(wire, false)).prop_map(|(pos, fault)| Some(FaultAt { pos, fault }))].boxed()
+            } else {
+                Just(None).boxed()
+            };
+            (sizes, first, second)
+                .prop_map(|(sizes_kib, a, b)| {
+                    let mut faults = vec![a];
+                    if let Some(b) = b {
+                        if b.pos != a.pos {
+                            faults.push(b);
+                        }
+                    }
+                    Stream { sizes_kib, faults }
+                })
+                .boxed()
+        }
+        Family::Outage => (sizes, prop_oneof![3 => Just(None), 1 => fault_kind(wire, false).prop_map(Some)])
+            .prop_map(|(sizes_kib, f)| Stream { sizes_kib, faults: f.map(|fault| vec![FaultAt { pos: 0, fault }]).unwrap_or_default() })
+            .boxed(),
+        Family::Drop => sizes.prop_map(|sizes_kib| Stream { sizes_kib, faults: vec![] }).boxed(),
+    }
+}
+
+fn scenario(wire: Wire, family: Family, thorough: bool) -> BoxedStrategy<Scenario> {
+    let st = move || stream(wire, family, thorough);
+    let streams = (st(), st(), st());
+    match family {
+        Family::Split | Family::Fault | Family::Stall => (subset(1), streams, any::<bool>(), prop::bool::weighted(0.3), 0u8..3)
+            .prop_map(move |(sub, (a, b, c), gzip, early_flush, only)| {
+                let mut all = [Some(a), Some(b), Some(c)];
+                for i in 0..3 {
+                    if !sub[i] {
+                        all[i] = None;
+                    }
+                }
+                // faults on one signal only keeps a case to one back-off wait
+                if family != Family::Split {
+                    let configured: Vec<usize> = (0..3).filter(|i| all[*i].is_some()).collect();
+                    let keep = configured[only as usize % configured.len()];
+                    for i in 0..3 {
+                        if i != keep {
+                            if let Some(s) = all[i].as_mut() {
+                                s.faults.clear();
+                            }
+                        }
+                    }
+                }
+                Scenario { wire, gzip, streams: all, outage: None, early_flush, ending: Ending::Flush }
+            })
+            .boxed(),
+        Family::Outage => (
+            subset(2),
+            streams,
+            any::<bool>(),
+            0u8..3,
+            prop_oneof![Just(Outage::Refused), Just(Outage::Reset), Just(Outage::Unavailable)],
+        )
+            .prop_map(move |(sub, (a, b, c), gzip, which, kind)| {
+                let mut all = [Some(a), Some(b), Some(c)];
+                for i in 0..3 {
+                    if !sub[i] {
+                        all[i] = None;
+                    }
+                }
+                let configured: Vec<usize> = (0..3).filter(|i| all[*i].is_some()).collect();
+                let down = Signal::ALL[configured[which as usize % configured.len()]];
+                // at most one healthy signal carries a scripted fault
+                let mut seen_fault = false;
+                for i in 0..3 {
+                    if let Some(s) = all[i].as_mut() {
+                        if i == down.index() || seen_fault {
+                            s.faults.clear();
+                        } else if !s.faults.is_empty() {
+                            seen_fault = true;
+                        }
+                    }
+                }
+                Scenario { wire, gzip, streams: all, outage: Some((down, kind)), early_flush: false, ending: Ending::Flush }
+            })
+            .boxed(),
+        Family::Drop => (subset(1), streams, any::<bool>(), any::<bool>(), prop::sample::select(vec![500u16, 503, 429]), 0u8..3)
+            .prop_map(move |(sub, (a, b, c), gzip, backoff, status, only)| {
+                let mut all = [Some(a), Some(b), Some(c)];
+                for i in 0..3 {
+                    if !sub[i] {
+                        all[i] = None;
+                    }
+                }
+                let ending = if backoff { Ending::DropDuringBackoff } else { Ending::DropWhileQueued };
+                if backoff {
+                    let configured: Vec<usize> = (0..3).filter(|i| all[*i].is_some()).collect();
+                    let keep = configured[only as usize % configured.len()];
+                    let fault = if wire == Wire::Grpc { Fault::GrpcStatus(14) } else { Fault::Status(status) };
+                    all[keep].as_mut().unwrap().faults = vec![FaultAt { pos: 0, fault }];
+                }
+                Scenario { wire, gzip, streams: all, outage: None, early_flush: false, ending }
+            })
+            .boxed(),
+    }
+}
+
 fn main() {
-    eprintln!("C12: check not built yet");
-    std::process::exit(2);
+    timing::init();
+    vcore::run(
+        "C12",
+        Level::FaultEnumeration,
+        RULE,
+        &[
+            "the scripted collector (harness/collector) is the network: it decides per request whether to acknowledge, reject, stall or drop, logs every request with its connection id and decodes bodies with the prost types generated in the repository (JSON through a lenient proto3-JSON reader); an event is identified by its `case_id` attribute / its message `c<case_id>`; a request counts as acknowledged once the collector has written the complete success response",
+            "streams stay far below the 10 000 item channel capacity, so nothing emit accepts is truncated; retry budgets (10 retries) are never exhausted on healthy endpoints by construction (at most 2 scripted failures per batch)",
+            "real-time constants of emit (700 ms first back-off, 30 s request timeout, 500 ms idle poll) only size harness deadlines: 'never acknowledged' means 'not acknowledged although blocking_flush returned true', or 'not acknowledged within 20 s + 3x the scripted back-off (+32 s per stall)' (10 s + back-off after the emitter was dropped); an expired deadline alone (the plug request not arriving within 30 s) makes the run inconclusive, not failed",
+            "an endpoint that is down is one of: a reserved port nothing listens on (refused), accept-then-close (reset), 503 to everything; its own events are not expected anywhere",
+            "dropping the emitter: per the receiver contract ('the future resolves once the Sender is dropped', after 'a chance to emit any last batch') events accepted before the drop are still owed to the collector",
+            "TLS is not exercised (no certificates offline); HTTP bodies use content-length framing as emit writes them",
+        ],
+        |s| {
+            let quick = s.quick();
+            let thorough = !quick;
+            s.require("multi-request-batch", if quick { 30 } else { 1500 });
+            s.require("failed-request", if quick { 25 } else { 1200 });
+            s.require("transport:http-json", if quick { 20 } else { 1000 });
+            s.require("transport:http-protobuf", if quick { 20 } else { 1000 });
+            s.require("transport:grpc", if quick { 20 } else { 1000 });
+            s.require("gzip:on", if quick { 20 } else { 1000 });
+            s.require("gzip:off", if quick { 20 } else { 1000 });
+            for f in ["status-5xx", "status-4xx", "close-before-read", "read-then-close", "grpc-status", "grpc-trailers-only-status", "ack-then-close"] {
+                s.require(&format!("fault:{f}"), if quick { 2 } else { 100 });
+            }
+            s.require("fault:stall", if quick { 3 } else { 50 });
+            s.require("outage:refused", if quick { 2 } else { 100 });
+            s.require("outage:reset", if quick { 2 } else { 100 });
+            s.require("outage:503", if quick { 2 } else { 100 });
+            s.require("ending:drop-while-queued", if quick { 2 } else { 100 });
+            s.require("ending:drop-during-backoff", if quick { 2 } else { 100 });
+
+            // (family, cases quick, cases thorough, parallel generator instances)
+            let plan: [(Family, &str, u64, u64, usize); 5] = [
+                (Family::Split, "split", 12, 600, 1),
+                (Family::Fault, "fault", 16, 900, 1),
+                (Family::Outage, "outage", 6, 300, 1),
+                (Family::Drop, "drop", 4, 160, 1),
+                (Family::Stall, "stall", 1, 20, 2),
+            ];
+            let wires = [(Wire::HttpJson, "http-json"), (Wire::HttpProto, "http-protobuf"), (Wire::Grpc, "grpc")];
+            // Cases mostly sleep (back-off, timeouts): every generator runs in its own thread at once.
+            std::thread::scope(|scope| {
+                for (family, fname, q, t, instances) in plan {
+                    for (wire, wname) in wires {
+                        for inst in 0..instances {
+                            let name = if instances > 1 { format!("{fname}-{wname}-{inst}") } else { format!("{fname}-{wname}") };
+                            let cases = s.n(q, t);
+                            std::thread::Builder::new()
+                                .stack_size(16 << 20)
+                                .spawn_scoped(scope, move || {
+                                    let guard = Guard::new();
+                                    s.gen(&name, cases, || scenario(wire, family, thorough), |sc, cx| guard.check(s, sc, cx));
+                                })
+                                .unwrap();
+                        }
+                    }
+                }
+            });
+        },
+    )
 }
